@@ -166,7 +166,11 @@ func (x *gen) refine(t target) sg.Refine {
 	case "container":
 		switch g.Pick(3, "rcont") {
 		case 0:
-			add("presence \"refined presence\";")
+			if g.Chance(1, 3, "emptyrefpresence") {
+				add("presence \"\";")
+			} else {
+				add("presence \"refined presence\";")
+			}
 		case 1:
 			add("must \"count(*) >= 0\";")
 		}
